@@ -173,6 +173,14 @@ class ArityChecker(MultiFunction):
             # argument numbers (ignoring parts)
             numbers = set(tuple(sorted(set(arg[0].number() for arg in op))) for op in ops)
             if () in numbers:  # Allow e.g. <v[0], 0, v[1]> but not <v[0], u[0]>
+                # A component without arguments must be zero: <v[0], 1> is
+                # affine, not linear, in v
+                for op, component in zip(ops, o.ufl_operands):
+                    if not op and not isinstance(component, Zero):
+                        raise ArityMismatch(
+                            "Listtensor components without form arguments must be zero "
+                            f"when other components depend on form arguments, found {component}."
+                        )
                 numbers.remove(())
             if len(numbers) > 1:
                 raise ArityMismatch(
